@@ -154,14 +154,14 @@ impl<'a> G<'a> {
             // under Custom strategies only those free of '.' and '[' (a member called "$" is
             // addressed as "$.$", its child x as "$.$.x")
             if self.cfg.safe_names {
-                return (*self.r.pick(&["", " ", "0", "$", "~", "$ref", "$id", "$$", "*", "-1", "{value}", "{name}", "{}", "%s", "1", "_sd_note", "_sdk_version", "_sdr", "kty"])).to_string();
+                return (*self.r.pick(&["", " ", "0", "$", "~", "$ref", "$id", "$$", "*", "-1", "{value}", "{name}", "{}", "%s", "1", "_sd_note", "_sdk_version", "_sdr", "kty", "ns~1v2", "rev~0", "a/b", "~0", "~1~0"])).to_string();
             }
-            return (*self.r.pick(&["", " ", "0", "$", "~", ".", "[0]", "a.b", "$.x", "$ref", "{value}", "{name}", "{salt}", "{0}", "%s", "$1", "1", "...etc", "....", "..", "_sd_note", "_sdk_version", "kty"])).to_string();
+            return (*self.r.pick(&["", " ", "0", "$", "~", ".", "[0]", "a.b", "$.x", "$ref", "{value}", "{name}", "{salt}", "{0}", "%s", "$1", "1", "...etc", "....", "..", "_sd_note", "_sdk_version", "kty", "ns~1v2", "rev~0", "a/b", "~0", "~1~0", ".well-known"])).to_string();
         }
         if name && self.r.chance(3) {
             // names that only LOOK like reserved / registered ones (none of them is reserved)
             return (*self.r.pick(&[
-                "_sd_x", "_sd_jwt_profile", "_sd_alg2", "_sdx", "_SD", "_Sd", "sd_hash", "_sd_", "cnfx", "jwk", "kb_jwt", "disclosures", "protected",
+                "_sd_x", "_sd_jwt_profile", "_sd_alg2", "_sdx", "_SD", "_Sd", "sd_hash", "_sd_", "cnfx", "jwk", "kb_jwt", "disclosures", "protected", "_links", "_embedded", "_", "__",
                 "issuer", "issuing_country", "iss2", "expiry_date", "experience", "exp_", "iat_", "iata", "nbf2", "subject", "aud_x",
             ]))
             .to_string();
@@ -169,7 +169,11 @@ impl<'a> G<'a> {
         if self.cfg.profile == Profile::Boundary && self.r.chance(40) {
             // byte length exactly at / next to a power of two, built from 1-, 2-, 3- or 4-byte
             // characters, with one character of another width at a random place
-            let target = *self.r.pick(&[0usize, 1, 2, 3, 15, 16, 17, 31, 32, 33, 63, 64, 65, 127, 128, 129, 255, 256, 257, 509, 510, 511, 512, 513, 1023, 1024, 1025, 4095, 4096, 4097]);
+            let mut target = *self.r.pick(&[0usize, 1, 2, 3, 15, 16, 17, 31, 32, 33, 63, 64, 65, 127, 128, 129, 255, 256, 257, 509, 510, 511, 512, 513, 1023, 1024, 1025, 4095, 4096, 4097]);
+            if !name && self.r.chance(2) {
+                // one value whose disclosure text is around / beyond 48 KiB .. 64 KiB
+                target = *self.r.pick(&[49_000usize, 49_152, 65_535, 65_536, 65_537, 70_000]);
+            }
             let base = *self.r.pick(&['a', 'é', '€', '😀']);
             let mut s = String::new();
             while s.len() + base.len_utf8() <= target {
@@ -212,7 +216,7 @@ impl<'a> G<'a> {
                     // JSON look-alikes and runs of spaces (interesting for the mock-salt spacing)
                     let frag = *self.r.pick(&[
                         "\":", ":[", ", ", ",", "\": ", "  ", "[1,2]", "{\"a\":1}", "\\\"", "\\u0041",
-                        "{value}", "{name}", "{salt}", "{}", "{0}", "%s", "%7E", "$1", "&amp;",
+                        "{value}", "{name}", "{salt}", "{}", "{0}", "%s", "%7E", "$1", "&amp;", "\\u{e9}", "\\u{41}", "\\u{1f600}", "\\x41", "\\ud83d",
                         "\\", ":  ",
                     ]);
                     s.push_str(frag);
@@ -466,7 +470,9 @@ impl<'a> G<'a> {
             return;
         }
         let (k, c, cv) = self.r.pick(&cand).clone();
-        let name = format!("{k}{c}");
+        // outside Custom strategies also the sibling whose NAME is the path text of the child
+        // ("org.unit" next to org -> unit)
+        let name = if !self.cfg.safe_names && self.r.chance(40) { format!("{k}.{c}") } else { format!("{k}{c}") };
         // "_sd_" + "alg", "_s" + "d", "c" + "nf" ...: a concatenation may spell a reserved / registered name
         let excluded = ["_sd", "...", "_sd_alg", "cnf", "aud", "sub", "nbf", "iss", "exp", "iat"].contains(&name.as_str());
         if !excluded && !m.contains_key(&name) && !k.is_empty() && !c.is_empty() {
@@ -580,7 +586,7 @@ pub fn gen_claims(r: &mut Rng, cfg: &GenCfg) -> Value {
         Profile::Flat => 2 + g.r.below(6),
         Profile::Boundary => {
             if g.r.chance(6) {
-                *g.r.pick(&[63u64, 64, 65, 127, 128, 129, 255, 256, 257])
+                *g.r.pick(&[63u64, 64, 65, 127, 128, 129, 250, 251, 252, 253, 254, 255, 256, 257, 509, 510, 511, 512])
             } else {
                 *g.r.pick(&[1u64, 2, 7, 8, 9, 15, 16, 17])
             }
@@ -780,6 +786,9 @@ pub fn gen_strategy(r: &mut Rng, u: &Value, kind: StratKind) -> Strategy {
                     strs.push(format!("{base}[99999]"));
                     strs.push(format!("{base}.zz.yy"));
                     strs.push(format!("{base}\u{7f}no-such-suffix"));
+                    // the same path in another letter case names no claim (unless a twin exists)
+                    strs.push(format!("$.{}", base[2..].to_uppercase()));
+                    strs.push(format!("$.{}", base[2..].to_lowercase()));
                 }
                 strs.push("$.iss".into());
                 strs.push("$.exp".into());
